@@ -7,6 +7,8 @@ command exit 1, but it is never reported as a VIOLATION of a listed property.
    input file's directory, then as a key of ~/.rbql_table_names -- Frontends!ResolveTable, judged by TLC.
 4. the repository's own scenario file (test/rbql_unit_tests.json) run against the tree, recorded and judged by the TLA+ monitors (EngineTrace), plus
    the scenarios' own expectations in both ports (the pinned suite never executes the tree).
+6. FROM <table>: the input table named in the query text and resolved through a ListTableRegistry (no context iterator): the C13 select cases
+   against Ref; no FROM / unknown table -> parsing error before anything is written.
 5. Pipeline.tla (query_csv at the level of text, see C13) through rbql-js query_csv, stream and bulk read.
 3. rbql-js file front-ends (rbql_csv.query_csv stream / bulk, node cli_rbql.js): the C13 cases in JavaScript syntax against Stringify / CliOk.
 2. user init code (engine): runs once after set_header and before the first get_record; functions it defines are
@@ -389,6 +391,60 @@ def js_pipeline(run, label, alphabet, maxlen, header):
         shutil.rmtree(root, ignore_errors=True)
 
 
+def _from_chunk(items):
+    import copy
+    mods = impl.load()
+    rbql, eng, rcsv, cu = mods
+    RecIterator, RecWriter, Registry = engine.make_recorders(eng)
+    out = []
+    for tid, case, mode in items:
+        A, B = engine.table_py(case['A']), engine.table_py(case['B'])
+        hdrA = list(case['hdrA']) if case['hasHdr'] else None
+        hdrB = list(case['hdrB']) if case['hasHdr'] else None
+        infos = [eng.ListTableInfo('inp', A, hdrA), eng.ListTableInfo('B', B, hdrB), eng.ListTableInfo('b', B, hdrB), eng.ListTableInfo('unused', [], None)]
+        c2 = dict(case, from_table={'ok': 'inp', 'missing': None, 'wrong': 'nosuch'}[mode])
+        qtext = engine.render_query(c2, engine.Spelling(ec.case_key(case) + 'from'), 'py')
+        events = []
+        wr = RecWriter(events, 0, [(A, copy.deepcopy(A)), (B, copy.deepcopy(B))])
+        obs = {'err': None}
+        try:
+            eng.query(qtext, None, wr, [], eng.ListTableRegistry(infos), user_init_code='')
+        except Exception as e:  # noqa
+            obs['err'] = engine.project_error(eng, e)
+        obs.update(rows=[[engine.project_value(c) for c in r] for r in wr.rows], hdr=wr.header, alias=wr.alias, src_changed=wr.src_changed)
+        if mode == 'ok':
+            sigs = engine.judge(case, obs, qtext)
+        else:
+            # FromOk: without a context input a query must name an existing table, otherwise a parsing error before anything is written
+            sigs = [] if (obs['err'] and obs['err']['cls'] == 'parsing' and not wr.rows) else [{'impl': 'py', 'what': 'FROM ' + mode + ': parsing error expected', 'got': obs['err'], 'query': qtext}]
+        out.append((tid, sigs))
+    return out
+
+
+def from_tables(run):
+    """Input table named in the query text (FROM <id>) and resolved through a ListTableRegistry, no context iterator: the C13 select cases must give
+    TLC's result; a query without FROM, or naming an unknown table, is a parsing error."""
+    from .. import par
+    d = tlcrun.new_scratch('extfrom')
+    items = []
+    for fam, recs, ra, rb, mb in (('Q_C13', 'R_2x2p', 2, 'R_none', 0), ('Q_C13join', 'R_2x2', 2, 'R_2x2', 1)):
+        cfg = ec.engine_cfg(os.path.join(d, fam + '.cfg'), fam, recs, rb, ra, mb, (False, True), (0,))
+        res = tlcrun.run_tlc('MC_Engine', cfg, timeout=3600)
+        run.add_tlc('MC_Engine:EXT-from:' + fam, res)
+        for case in res.cases:
+            if case['q']['kind'] != 'select' or (case['expect'].get('alt') or {}).get('has'):
+                continue
+            items.append((len(items), case, 'ok'))
+            if len(items) % 25 == 0:
+                items.append((len(items), case, 'missing'))
+                items.append((len(items), case, 'wrong'))
+    for (tid, case, mode), (_, sigs) in zip(items, par.pmap(_from_chunk, items, chunk=150)):
+        run.traces += 1
+        run.count(['from', ec.case_key(case), mode], nontrivial=len(case['A']) >= 1)
+        for sig in sigs:
+            run.violation(dict(sig, what='FROM <table>: ' + sig['what']), {'kind': 'from_case', 'case': case, 'mode': mode})
+
+
 def check(run):
     run.prop = 'EXT'
     run.rule = ('extensions of the specification beyond the listed properties: join-table lookup order (16 existence combinations x relative/absolute id, each in a fresh process with its own HOME and working directory); '
@@ -396,6 +452,7 @@ def check(run):
     run.assumptions = ['not a listed property: mismatches are reported as EXTENSION-MISMATCH']
     table_lookup(run)
     repo_scenarios(run)
+    from_tables(run)
     ec.run_family(run, 'EXT-user-init-code', 'Q_EXTinit', 'R_2x2', maxA=2, hdrmodes=(False, True))
     js_pipeline(run, 'EXT-js-text-pipeline', [97, 34, 44, 59, 10, 32], 3, False)
     js_pipeline(run, 'EXT-js-text-pipeline-header', [97, 34, 44, 59, 10, 32], 3, True)
